@@ -90,13 +90,18 @@ class Ctx:
         self.samples = []
         self.cov = {}
         self.assumptions = []
-        self._vdrive = None
+        self._vdrive = {}
         self._probes = {}
         self._tlc_n = 0
         self.findings = []
+        import glob
         p = os.path.join(VERIF, "known_findings.json")
         if os.path.exists(p):
             self.findings = json.load(open(p)).get("findings", [])
+        for p in glob.glob(os.path.join(VERIF, "known_findings.d", "*.json")):   # development: not yet merged
+            for f in json.load(open(p)).get("findings", []):
+                if f not in self.findings:
+                    self.findings.append(f)
         self.env = dict(os.environ)
         self.env.update({"GOFLAGS": "-mod=mod", "GOPROXY": "off", "CGO_ENABLED": "0"})
         self.env.pop("GOSUMDB", None)
@@ -143,30 +148,30 @@ class Ctx:
         return r.returncode, r.stdout
 
     # ------------------------------------------------------------------ builds
-    def build_vdrive(self, race=False):
-        """go build -tags verif of the harness against the repository's current working tree"""
-        if self._vdrive and not race:
-            return self._vdrive
+    def build_vdrive(self, name, race=False):
+        """go build -tags verif of harness/cmd/<name> against the repository's current working tree"""
+        if not race and name in self._vdrive:
+            return self._vdrive[name]
         hdir = os.path.join(VERIF, "harness")
         modfile = self.path("gomod", "go.mod")
         src = open(os.path.join(hdir, "go.mod")).read()
         src = re.sub(r"(replace github.com/criyle/go-sandbox => )\S+", r"\g<1>" + self.repo, src)
         open(modfile, "w").write(src)
         shutil.copy(os.path.join(self.repo, "go.sum"), self.path("gomod", "go.sum"))
-        out = self.path("bin", "vdrive-race" if race else "vdrive")
+        out = self.path("bin", name + ("-race" if race else ""))
         cmd = ["go", "build", "-modfile=" + modfile, "-tags", "verif", "-o", out]
         env = {}
         if race:
             cmd.insert(2, "-race")
             env["CGO_ENABLED"] = "1"
-        cmd.append("./cmd/vdrive")
+        cmd.append("./cmd/" + name)
         t = time.time()
         rc, o = self.sh(cmd, cwd=hdir, timeout=900, env=env)
         if rc != 0:
             raise Inconclusive("harness build failed against %s:\n%s" % (self.repo, o[-6000:]))
-        self.log("built vdrive%s in %.1fs" % (" (race)" if race else "", time.time() - t))
+        self.log("built %s%s in %.1fs" % (name, " (race)" if race else "", time.time() - t))
         if not race:
-            self._vdrive = out
+            self._vdrive[name] = out
         return out
 
     def probe(self, name, flags=()):
@@ -178,12 +183,12 @@ class Ctx:
         self._probes[name] = out
         return out
 
-    def vdrive(self, args, timeout=900, env=None, cwd=None, check=True, input=None):
-        """run the harness; returns stdout+stderr text"""
-        exe = self.build_vdrive()
+    def vdrive(self, name, args, timeout=900, env=None, cwd=None, check=True, input=None):
+        """run harness binary cmd/<name> with args; returns stdout+stderr text"""
+        exe = self.build_vdrive(name)
         rc, o = self.sh([exe] + list(args), timeout=timeout, env=env, cwd=cwd or self.scratch, input=input)
         if check and rc != 0:
-            raise Inconclusive("vdrive %s exited %d:\n%s" % (" ".join(args[:3]), rc, o[-6000:]))
+            raise Inconclusive("driver %s %s exited %d:\n%s" % (name, " ".join(args[:3]), rc, o[-6000:]))
         return o
 
     # ------------------------------------------------------------------ TLC
